@@ -241,6 +241,8 @@ type MachineRun struct {
 	M       *channel.StateMachine
 	Cands   []tla.Val
 	Adopted bool // driver-side history: current state was set by SetProgressed
+	// AdoptedEnc is the encoding of the state of the progression event that was adopted last.
+	AdoptedEnc []byte
 	// P, if set, is the persisting wrapper around M; operations then go through it.
 	P *persistence.StateMachine
 }
@@ -311,6 +313,8 @@ func (r *MachineRun) Project() (st tla.Rec, c01 string) {
 		c01 = "current: " + bad2
 	case r.M.CurrentTX().State != nil && !full && !r.Adopted:
 		c01 = "current state is not signed by every participant (and was not adopted from a progression event): " + tla.String(cur)
+	case r.M.CurrentTX().State != nil && !full && r.Adopted && r.AdoptedEnc != nil && !bytes.Equal(encState(r.M.CurrentTX().State), r.AdoptedEnc):
+		c01 = "current state is not signed by every participant and is NOT the state of the progression event that was adopted: " + tla.String(cur)
 	default:
 		// StagingSigsSound: every stored staged signature is the slot owner's over the staged state.
 		sf := stg["sigs"].(tla.Fn)
@@ -447,6 +451,7 @@ func (r *MachineRun) Exec(a *tla.Action, pre tla.Rec) (res string) {
 		err := m.SetProgressed(channel.NewProgressedEvent(e.Params.ID(), &channel.ElapsedTimeout{}, st, 0))
 		if err == nil {
 			r.Adopted = true
+			r.AdoptedEnc = encState(st)
 		}
 		return cls(err)
 	}
